@@ -24,7 +24,20 @@ type Step struct {
 	Substr [][]int `json:"substr,omitempty"`
 	// xpath: the expressions of the var/xpath mapping; empty = the fixed //div[@class='data']
 	XPath []XExpr `json:"xpath,omitempty"`
+	// "" = GET; HEAD only for steps whose postprocessors need no body (none, header, header_substr, assert - which
+	// then checks status and headers only): a good HEAD answer has no body to extract from
+	Method string `json:"method,omitempty"`
 }
+
+func (s Step) method() string {
+	if s.Method == "" {
+		return "GET"
+	}
+	return s.Method
+}
+
+// headAnnounce: a HEAD step answered with a huge Content-Length got a legal, well-behaved answer
+func headAnnounce(st Step, b Beh) bool { return st.Method == "HEAD" && b.Kind == "announce" }
 
 // XExpr is one generated XPath 1.0 expression over catalogue pages (catalogPage) and what kind of thing it is.
 type XExpr struct {
@@ -168,6 +181,12 @@ func genStep(t *rapid.T) Step {
 			s.XPath = append(s.XPath, genXExpr(t))
 		}
 	}
+	switch s.Post {
+	case "none", "header", "header_substr", "assert":
+		if rapid.IntRange(0, 3).Draw(t, "head") == 0 {
+			s.Method = "HEAD"
+		}
+	}
 	return s
 }
 
@@ -197,6 +216,8 @@ func genScen(t *rapid.T) ScenCase {
 			s.MisStep = rapid.IntRange(0, k-1).Draw(t, "misStep")
 			if c.Steps[s.MisStep].Post == "xpath" && rapid.IntRange(0, 2).Draw(t, "page") != 0 {
 				s.Beh = Beh{Kind: "ok", Prices: genPrices(t)} // a catalogue page for the step that reads one
+			} else if c.Steps[s.MisStep].Method == "HEAD" && rapid.IntRange(0, 2).Draw(t, "headOfHuge") == 0 {
+				s.Beh = announceBeh(t) // the HEAD step asks about a huge resource
 			} else {
 				s.Beh = genScenBeh(t)
 			}
@@ -227,6 +248,10 @@ func genScenBeh(t *rapid.T) Beh {
 		// a header value of any length up to a bit more than the usual one
 		return Beh{Kind: "ok", Header: map[string]string{"X-Token": rapid.StringOfN(rapid.RuneFrom([]rune("abcXYZ019-_")), 0, 20, -1).Draw(t, "token")}}
 	default:
+		// transport-level misbehaviour; one in three: a Content-Length far beyond what arrives before the close
+		if rapid.IntRange(0, 2).Draw(t, "announcesFarMore") == 0 {
+			return announceBeh(t)
+		}
 		return genBeh(t, false)
 	}
 }
@@ -235,7 +260,7 @@ func scenarioYAML(c ScenCase) string {
 	var sb strings.Builder
 	sb.WriteString("requests:\n")
 	for i, s := range c.Steps {
-		fmt.Fprintf(&sb, "  - name: s%d\n    method: GET\n    uri: /s%d\n    tag: t%d\n", i, i, i)
+		fmt.Fprintf(&sb, "  - name: s%d\n    method: %s\n    uri: /s%d\n    tag: t%d\n", i, s.method(), i, i)
 		switch s.Post {
 		case "jsonpath":
 			sb.WriteString("    postprocessors:\n      - type: var/jsonpath\n        mapping:\n          v: $.key\n          w: $.items[1]\n")
@@ -267,6 +292,10 @@ func scenarioYAML(c ScenCase) string {
 				fmt.Fprintf(&sb, "          tok%d: \"X-Token|%s\"\n", m, mod)
 			}
 		case "assert":
+			if s.Method == "HEAD" {
+				sb.WriteString("    postprocessors:\n      - type: assert/response\n        headers:\n          Content-Type: json\n        status_code: 200\n")
+				break
+			}
 			sb.WriteString("    postprocessors:\n      - type: assert/response\n        headers:\n          Content-Type: json\n        body:\n          - key\n        status_code: 200\n")
 		}
 	}
@@ -306,7 +335,7 @@ func checkScen(c ScenCase, o *vf.Obs) error {
 		cur := shot
 		smu.Unlock()
 		if cur >= 0 && cur < len(c.Shots) && c.Shots[cur].MisStep == step {
-			return c.Shots[cur].Beh.resp()
+			return c.Shots[cur].Beh.respFor(r.Method)
 		}
 		if step >= 0 && step < len(c.Steps) {
 			return goodBehFor(c.Steps[step]).resp()
@@ -347,6 +376,12 @@ func checkScen(c ScenCase, o *vf.Obs) error {
 	mis, goodAfter := 0, false
 	for j, g := range groups {
 		s := c.Shots[j]
+		// a HEAD step answered with the size of a huge resource got a legal answer: the invocation met only good ones
+		legalHead := s.MisStep >= 0 && headAnnounce(c.Steps[s.MisStep], s.Beh)
+		if legalHead {
+			o.Class("head_announces_huge_on_" + c.Steps[s.MisStep].Post)
+			o.ClassIf(c.Steps[s.MisStep].Post != "none", "head_announces_huge_postprocessed")
+		}
 		if len(g) < 1 || len(g) > len(c.Steps) {
 			return fmt.Errorf("invocation %d left %d samples for %d steps\n%s", j, len(g), len(c.Steps), data)
 		}
@@ -356,7 +391,7 @@ func checkScen(c ScenCase, o *vf.Obs) error {
 				return fmt.Errorf("invocation %d sample %d is tagged %q, expected the scenario and step name %q\n%s", j, i, l.tag, wantTag, data)
 			}
 		}
-		if s.MisStep < 0 {
+		if s.MisStep < 0 || legalHead {
 			if len(g) != len(c.Steps) {
 				return fmt.Errorf("invocation %d met only well-behaved responses but left %d samples for %d steps\n%s\n%s", j, len(g), len(c.Steps), data, scenarioYAML(c))
 			}
@@ -372,6 +407,11 @@ func checkScen(c ScenCase, o *vf.Obs) error {
 		}
 		mis++
 		o.Class("mis_" + s.Beh.Kind + "_on_" + c.Steps[s.MisStep].Post)
+		if s.Beh.Kind == "announce" {
+			buffered := c.Steps[s.MisStep].Post != "none" // the gun reads the body into memory for the postprocessors
+			o.ClassIf(buffered, "lying_length_postprocessed")
+			o.ClassIf(buffered && unallocatable(s.Beh.Len), "lying_length_unallocatable_postprocessed")
+		}
 		xpathClasses(c.Steps[s.MisStep], s.Beh, o)
 		if len(g) < s.MisStep+1 {
 			return fmt.Errorf("invocation %d: steps before the misbehaving step %d all got good responses, but only %d samples were left\n%s", j, s.MisStep, len(g), data)
@@ -385,6 +425,7 @@ func checkScen(c ScenCase, o *vf.Obs) error {
 	anyNeg, anyBeyond := false, false
 	for i, st := range c.Steps {
 		o.Class("post_" + st.Post)
+		o.ClassIf(st.Method == "HEAD", "head_step")
 		for _, x := range st.XPath {
 			o.Class("xpath_expr_" + x.Kind)
 		}
